@@ -93,7 +93,9 @@ class Sub:
 
 
 class Prog:
-    def __init__(self, main, subs=(), types=()):
+    def __init__(self, main, subs=(), types=(), subs_first=False):
+        # subs_first: procedures are printed above the module-level code
+        self.subs_first = subs_first
         self.main = [fresh(x) for x in main]
         self.subs = list(subs)
         # types: [('pt', [('x%', None) | ('inner', 'other')])]
@@ -384,7 +386,8 @@ def to_text(prog):
             else:
                 p.emit('  %s AS %s' % (fname, ftype))
         p.emit('END TYPE')
-    p.stmts(prog.main, 0)
+    if not getattr(prog, 'subs_first', False):
+        p.stmts(prog.main, 0)
     for sub in prog.subs:
         params = ', '.join(
             (n + (' AS ' + t if t else '')) for n, t in sub.params)
@@ -399,6 +402,8 @@ def to_text(prog):
         p.stmts(sub.body, 1)
         p.cur_sub = None
         p.emit('END ' + kw, ('subend', sub))
+    if getattr(prog, 'subs_first', False):
+        p.stmts(prog.main, 0)
     prog.lines = p.lines
     return '\n'.join(p.out) + '\n'
 
